@@ -29,7 +29,7 @@ RULE = ("per model (defaults of HEM/Merton/VG/CGMY, one CGMY draw per activity b
         "zoo.draw_params draws): break points -inf < 2-3 log-uniform negative points < 0 < 2-3 positive points < inf; every "
         "pair a <= b of break points (one side, straddling, touching 0, finite / infinite ends, degenerate) x n = 0..6 x both "
         "API routes (integrate/_x/_xx and integrate_against_xn); reference = sum of mpmath.quad pieces (30 digits, split at 0 "
-        "and at the break points, error estimate <= 1e-15 relative or the case is skipped). A combination is skipped (counted) "
+        "and at the break points, error estimate <= 1e-15 relative + 1e-25 or the case is skipped). A combination is skipped (counted) "
         "when x^n*nu is not integrable at a 0 inside the closed interval (VG: n = 0; CGMY: n <= y) -- this includes the "
         "degenerate interval [0,0] there. Tolerance: 1e-8*|ref| + 1e-12 + 1e-13*(one-sided tail moment that the closed form "
         "subtracts; Merton: the absolute moment over R); routes that the implementation evaluates with scipy.integrate.quad "
@@ -160,7 +160,7 @@ class Ref:
         pts = [M(lo)] + [M(e) for e in inner] + [M(hi)]
         f = self.f
         v, err = mp.quad(lambda x: x ** n * f(x), pts, error=True)
-        ok = err <= mp.mpf(10) ** -15 * abs(v) + mp.mpf(10) ** -40
+        ok = err <= mp.mpf(10) ** -15 * abs(v) + mp.mpf(10) ** -25
         self.cache[key] = v if ok else None
         if not ok:
             self.cache[("unreliable", key)] = True
